@@ -343,13 +343,39 @@ pub(crate) fn blend<S: Sample>(
         }
         new_grid.buffer_mut()[idx].convert_to_float_modular(bit_depth)?;
 
+        // Channels of the new frame may cover different regions (e.g. upsampled extra channels), so
+        // cut the area to blend out of each of them.
+        let blend_width = clipped_original_frame_region.width as usize;
+        let blend_height = clipped_original_frame_region.height as usize;
+        let new_alpha_subgrid = |idx: usize| {
+            let alpha_region = new_grid.regions_and_shifts()[idx + color_channels].0;
+            let left = clipped_original_frame_region.left.abs_diff(alpha_region.left) as usize;
+            let top = clipped_original_frame_region.top.abs_diff(alpha_region.top) as usize;
+            new_grid.buffer()[idx + color_channels]
+                .as_float()
+                .unwrap()
+                .as_subgrid()
+                .subgrid(left..(left + blend_width), top..(top + blend_height))
+        };
+        if let Some(idx) = alpha_idx {
+            let alpha_region = new_grid.regions_and_shifts()[idx + color_channels].0;
+            if !clipped_original_frame_region.is_empty()
+                && !alpha_region.contains(clipped_original_frame_region)
+            {
+                tracing::error!(
+                    ?alpha_region,
+                    ?clipped_original_frame_region,
+                    "Alpha channel does not cover the area to blend"
+                );
+                return Err(jxl_bitstream::Error::ValidationFailed(
+                    "alpha channel does not cover the area to blend",
+                )
+                .into());
+            }
+        }
+
         let mut blend_params = if clone_empty {
-            let new_alpha = alpha_idx.map(|idx| {
-                new_grid.buffer()[idx + color_channels]
-                    .as_float()
-                    .unwrap()
-                    .as_subgrid()
-            });
+            let new_alpha = alpha_idx.map(new_alpha_subgrid);
             let premultiplied =
                 alpha_idx.and_then(|idx| image_header.metadata.ec_info[idx].alpha_associated());
             BlendParams::from_blending_info(
@@ -361,12 +387,7 @@ pub(crate) fn blend<S: Sample>(
                 premultiplied,
             )
         } else {
-            let new_alpha = alpha_idx.map(|idx| {
-                new_grid.buffer()[idx + color_channels]
-                    .as_float()
-                    .unwrap()
-                    .as_subgrid()
-            });
+            let new_alpha = alpha_idx.map(new_alpha_subgrid);
             let premultiplied =
                 alpha_idx.and_then(|idx| image_header.metadata.ec_info[idx].alpha_associated());
             BlendParams::from_blending_info(
@@ -386,7 +407,7 @@ pub(crate) fn blend<S: Sample>(
                 .top
                 .abs_diff(output_frame_region.top) as usize,
         );
-        blend_params.new_topleft = (
+        let new_topleft = (
             clipped_original_frame_region
                 .left
                 .abs_diff(original_frame_region.left) as usize,
@@ -394,11 +415,15 @@ pub(crate) fn blend<S: Sample>(
                 .top
                 .abs_diff(original_frame_region.top) as usize,
         );
-        blend_params.width = clipped_original_frame_region.width as usize;
-        blend_params.height = clipped_original_frame_region.height as usize;
+        blend_params.new_topleft = (0, 0);
+        blend_params.width = blend_width;
+        blend_params.height = blend_height;
 
-        let new_grid = new_grid.buffer()[idx].as_float().unwrap();
-        blend_single(target_subgrid, new_grid.as_subgrid(), &blend_params);
+        let new_grid = new_grid.buffer()[idx].as_float().unwrap().as_subgrid().subgrid(
+            new_topleft.0..(new_topleft.0 + blend_width),
+            new_topleft.1..(new_topleft.1 + blend_height),
+        );
+        blend_single(target_subgrid, new_grid, &blend_params);
         output_grid.append_channel(target_grid, target_region);
     }
 
